@@ -357,8 +357,26 @@ func (env *specEnv) index(a, i TV) (TV, error) {
 	}
 	if a.Ty != nil {
 		if mt, ok := a.Ty.Underlying().(*types.Map); ok {
-			k := mapKeyTerm(env.VC(), S, i.T, mt.Key())
-			return TV{fmt.Sprintf("(select (select %s %s) %s)", env.h(S.MapValKey(mt)), a.T, k), S.SortOf(mt.Elem()), mt.Elem()}, nil
+			k := mapKeyTerm(env.VC(), S, env.view2(i, mt.Key()).T, mt.Key())
+			// Go semantics: a missing key (or a nil map) yields the zero value
+			has := fmt.Sprintf("(and (not (= %s 0)) (select (select %s %s) %s))", a.T, env.h(S.MapHasKey(mt)), a.T, k)
+			val := fmt.Sprintf("(select (select %s %s) %s)", env.h(S.MapValKey(mt)), a.T, k)
+			full := sIte(has, val, S.Zero(mt.Elem()))
+			// name the lookup once (keeps quantified formulas small) unless it mentions a bound variable
+			if !strings.Contains(full, "q!") && !strings.Contains(full, "AXV!") && !strings.Contains(full, "lv!") {
+				vc := env.VC()
+				if vc.lookupNames == nil {
+					vc.lookupNames = map[string]string{}
+				}
+				n, ok := vc.lookupNames[full]
+				if !ok || !vc.declared[n] {
+					n = vc.fresh("maplookup", S.SortOf(mt.Elem()))
+					vc.lookupNames[full] = n
+					vc.def(sEq(n, full))
+				}
+				return TV{n, S.SortOf(mt.Elem()), mt.Elem()}, nil
+			}
+			return TV{full, S.SortOf(mt.Elem()), mt.Elem()}, nil
 		}
 	}
 	return TV{}, fmt.Errorf("index on %s", a.Sort)
@@ -615,6 +633,20 @@ func (env *specEnv) call(n *SCall) (TV, error) {
 		}
 		kk := mapKeyTerm(vc, S, env.view2(k, mt.Key()).T, mt.Key())
 		return TV{fmt.Sprintf("(and (not (= %s 0)) (select (select %s %s) %s))", m.T, env.h(S.MapHasKey(mt)), m.T, kk), "Bool", nil}, nil
+	case "nonnilvals":
+		// every value stored in map m is a non-nil reference
+		m, err := env.Term(n.Args[0])
+		if err != nil {
+			return TV{}, err
+		}
+		mt, ok := m.Ty.Underlying().(*types.Map)
+		if !ok {
+			return TV{}, fmt.Errorf("nonnilvals: not a map")
+		}
+		vc.nfresh++
+		bv := fmt.Sprintf("q!mk!%d", vc.nfresh)
+		val := fmt.Sprintf("(select (select %s %s) %s)", env.h(S.MapValKey(mt)), m.T, bv)
+		return TV{fmt.Sprintf("(=> (not (= %s 0)) (forall ((%s Int)) (! (=> (select (select %s %s) %s) (not (= %s 0))) :pattern (%s))))", m.T, bv, env.h(S.MapHasKey(mt)), m.T, bv, val, val), "Bool", nil}, nil
 	case "isnil", "nonnil":
 		a, err := env.Term(n.Args[0])
 		if err != nil {
@@ -680,6 +712,31 @@ func (env *specEnv) call(n *SCall) (TV, error) {
 			return TV{}, fmt.Errorf("deref of struct pointer: use field selectors")
 		}
 		return TV{fmt.Sprintf("(select %s %s)", env.h(S.DerefKey(pt.Elem())), a.T), S.SortOf(pt.Elem()), pt.Elem()}, nil
+	case "as":
+		// as(x, "T"): the value held by interface x viewed as concrete type T (meaningful when typeis(x, "T"))
+		a, err := env.Term(n.Args[0])
+		if err != nil {
+			return TV{}, err
+		}
+		ts, ok := n.Args[1].(*SStr)
+		if !ok {
+			return TV{}, fmt.Errorf("as: second argument must be a quoted type")
+		}
+		T, err := vc.P.LookupType(env.pkg, ts.V)
+		if err != nil {
+			return TV{}, err
+		}
+		if a.Sort != "Ifc" {
+			return TV{}, fmt.Errorf("as: not an interface value")
+		}
+		sn := S.SortOf(T)
+		if sn == "Int" {
+			return TV{fmt.Sprintf("(i-ref %s)", a.T), "Int", T}, nil
+		}
+		un := "unbox!" + mangle(sn)
+		vc.declFun("box!"+mangle(sn), "("+sn+") Int")
+		vc.declFun(un, "(Int) "+sn)
+		return TV{fmt.Sprintf("(%s (i-ref %s))", un, a.T), sn, T}, nil
 	case "ite":
 		return env.Term(&SCond{n.Args[0], n.Args[1], n.Args[2]})
 	case "held":
